@@ -13,6 +13,7 @@ Rendering parenthesises every compound operand, so precedence / chaining rules o
 grammar never interfere.
 """
 
+MAX_ARITIES = [1, 1, 2, 2, 3, 3, 5, 8, 9, 10, 13, 17, 20, 24]
 ARITH = ["+", "-", "*"]
 ORD = ["<", "<=", ">", ">="]
 EQ = ["==", "!="]
@@ -192,7 +193,8 @@ class Env:
     def __init__(self):
         self.by_ty = {}      # ty -> [text]
         self.fields = []     # texts usable in $present (any type)
-        self.enums = {}      # enum name -> [value names]
+        self.enums = {}      # canonical enum name -> [value names] (only enums nameable in this module)
+        self.alias = {}      # canonical enum name -> how this module spells it (`Ea`, `oth.Ea`)
 
     def add(self, text, ty, field=True):
         self.by_ty.setdefault(ty, []).append(text)
@@ -204,14 +206,45 @@ class Env:
         e.by_ty = {k: list(v) for k, v in self.by_ty.items()}
         e.fields = list(self.fields)
         e.enums = self.enums
+        e.alias = self.alias
         return e
+
+    def spell(self, canon):
+        return self.alias.get(canon, canon)
+
+    def enum_types(self):
+        """enum types an expression can be built for: nameable ones and those some field has."""
+        ts = [("enum", n) for n in self.enums]
+        for t in self.by_ty:
+            if isinstance(t, tuple) and t not in ts and self.by_ty[t]:
+                ts.append(t)
+        return ts
+
+    def other_enum(self, r, ty, prefer_same_name=0.6):
+        """an enum type different from ty; preferably one with the same name in another module."""
+        cands = [t for t in self.enum_types() if t != ty]
+        if not cands:
+            return None
+        same = [t for t in cands if ty is not None and isinstance(ty, tuple) and base(t[1]) == base(ty[1])]
+        if same and r.random() < prefer_same_name:
+            return r.choice(same)
+        return r.choice(cands)
+
+    def two_enums(self, r):
+        ts = self.enum_types()
+        a = r.choice(ts)
+        return a, self.other_enum(r, a)
+
+
+def base(canon):
+    return canon.split("/")[-1]
 
 
 class ExprGen:
-    def __init__(self, r, env, closed=False, const_bounds=False):
+    def __init__(self, r, env, closed=False, const_bounds=True):
         self.r, self.env, self.closed = r, env, closed
-        # $upper_bound/$lower_bound of a closed argument crash ir_util.constant_value wherever
-        # the compiler folds constants (open finding): only `let` values may contain them
+        # $upper_bound/$lower_bound of a closed argument used to crash ir_util.constant_value
+        # (repaired by 262d011): they are generated everywhere now
         self.const_bounds = const_bounds
 
     def bound_arg(self, d):
@@ -237,7 +270,10 @@ class ExprGen:
         if ty == "bool":
             return ("bool", r.random() < 0.5)
         if isinstance(ty, tuple):
-            return ("enum", ty[1], r.choice(self.env.enums[ty[1]]))
+            if ty[1] in self.env.enums:
+                return ("enum", self.env.spell(ty[1]), r.choice(self.env.enums[ty[1]]))
+            if names:
+                return ("ref", r.choice(names), ty)     # an enum this module cannot name: only via fields
         raise ValueError(ty)
 
     def gen(self, ty, d):
@@ -253,8 +289,10 @@ class ExprGen:
             if c < 0.70:
                 return ("choice", self.gen("bool", d - 1), self.gen("int", d - 1), self.gen("int", d - 1))
             if c < 0.82:
-                n = r.choice([1, 1, 2, 2, 3, 5])
-                return ("fn", "$max", [self.gen("int", d - 1) for _ in range(n)])
+                n = r.choice(MAX_ARITIES)
+                # arities well beyond the usual: long calls get shallow arguments (size, not depth)
+                return ("fn", "$max", [self.gen("int", d - 1 if n <= 3 else min(d - 1, 1) if n <= 8 else 0)
+                                       for _ in range(n)])
             a = self.bound_arg(d - 1)
             if a is None:
                 return ("fn", "$max", [self.gen("int", d - 1)])
@@ -266,7 +304,8 @@ class ExprGen:
             if c < 0.50:
                 return ("bin", r.choice(ORD), self.gen("int", d - 1), self.gen("int", d - 1))
             if c < 0.75:
-                t = r.choice(["int", "int", "bool"] + [("enum", n) for n in self.env.enums])
+                t = r.choice(["int", "int", "bool"] + [t for t in self.env.enum_types()
+                                                      if not self.closed or t[1] in self.env.enums])
                 return ("bin", r.choice(EQ), self.gen(t, d - 1), self.gen(t, d - 1))
             if c < 0.87:
                 return ("choice", self.gen("bool", d - 1), self.gen("bool", d - 1), self.gen("bool", d - 1))
@@ -318,6 +357,7 @@ class Module:
         self.lines = []
         self.sites = []
         self.meta = {}
+        self.file = "m.emb"
 
     def add(self, text, sites=()):
         """text contains {0}, {1}... placeholders for the sites' expressions."""
@@ -334,12 +374,96 @@ class Module:
         self.lines[site["line"]][1][site["slot"]] = e
 
 
-def gen_valid(r, maxdepth=6, n_items=10, steer_array_bool=True, const_bounds=False, signed_literal=True):
-    """A well-typed module.  Returns Module."""
+class Lib:
+    """What an importer can see of a generated library module."""
+
+    def __init__(self, fname):
+        self.fname = fname
+        self.enums = {}       # canonical -> values
+        self.local = {}       # canonical -> local spelling inside the library
+        self.consts = []      # (suffix after `alias.`, canonical type): static references to constant `let`s
+        self.holder = []      # (field name, canonical type) of struct Holder
+        self.phys = "Holder.n"
+        self.par_enum = None  # canonical type of Par's second parameter
+
+
+def gen_lib(r, fname, maxdepth=3, sub=None):
+    """A library module: enums *with the same names as the importer's* (`Ea`), a parameterised
+    struct `Par`, constants, and a struct `Holder`.  sub = (alias, Lib) imported by the library."""
+    m = Module()
+    m.file = fname
+    lib = Lib(fname)
+    d = r.randint(1, maxdepth)
+    ea, ec = fname + "/Ea", fname + "/Ec"
+    lib.enums = {ea: ["AA", "ZZ", "QQ"], ec: ["MM", "NN"]}
+    lib.local = {ea: "Ea", ec: "Ec"}
+    env0 = Env()
+    env0.enums = dict(lib.enums)
+    env0.alias = dict(lib.local)
+    if sub:
+        alias, sl = sub
+        m.add('import "%s" as %s' % (sl.fname, alias))
+        for c, vs in sl.enums.items():
+            env0.enums[c] = vs
+            env0.alias[c] = alias + "." + sl.local[c]
+    m.add('[$default byte_order: "LittleEndian"]')
+    gvalue = ExprGen(r, Env(), closed=True)
+    for c, spelled in (ea, "Ea"), (ec, "Ec"):
+        m.add("enum %s:" % spelled)
+        for v in lib.enums[c]:
+            m.add("  %s = {0}" % v, [("enum-value", gvalue.int_with_value(r.randint(0, 200), r.randint(0, d)), "int", env0)])
+    gclosed = ExprGen(r, env0, closed=True)
+    penv = env0.copy()
+    penv.add("pa", "int", field=False)
+    penv.add("pe", ("enum", ea), field=False)
+    m.add("struct Par(pa: UInt:8, pe: Ea):")
+    m.add("  0 [+1]  UInt  q")
+    penv.add("q", "int")
+    m.add("  let k = {0}", [("let", ExprGen(r, penv).gen("int", d), "int", penv)])
+    m.add("  if {0}:", [("if", ExprGen(r, penv).gen("bool", d), "bool", penv)])
+    m.add("    1 [+1]  UInt  rr")
+    lib.par_enum = ("enum", ea)
+    m.add("struct Cst:")
+    m.add("  let c0 = {0}", [("let", gclosed.int_with_value(r.randint(0, 9), min(d, 2)), "int", env0)])
+    m.add("  let e0 = {0}", [("let", gclosed.gen(("enum", ea), 1), ("enum", ea), env0)])
+    m.add("  let b0 = {0}", [("let", gclosed.gen("bool", min(d, 2)), "bool", env0)])
+    lib.consts = [("Cst.c0", "int"), ("Cst.e0", ("enum", ea)), ("Cst.b0", "bool")]
+    henv = env0.copy()
+    m.add("struct Holder:")
+    m.add("  0 [+1]  Ea  kind")
+    m.add("  1 [+1]  UInt  n")
+    m.add("  2 [+1]  Ec  ck")
+    lib.holder = [("kind", ("enum", ea)), ("n", "int"), ("ck", ("enum", ec))]
+    if sub:
+        alias, sl = sub
+        c = sorted(sl.enums)[0]
+        m.add("  3 [+1]  %s.%s  tk" % (alias, sl.local[c]))
+        lib.holder.append(("tk", ("enum", c)))
+    for nm, ty in lib.holder:
+        henv.add(nm, ty)
+    g = ExprGen(r, henv)
+    m.add("  let dv = {0}", [("let", g.gen("int", d), "int", henv.copy())])
+    m.add("  let de = {0}", [("let", g.gen(("enum", ea), min(d, 2)), ("enum", ea), henv.copy())])
+    lib.holder += [("dv", "int"), ("de", ("enum", ea))]
+    m.add("  if {0}:", [("if", g.gen("bool", d), "bool", henv.copy())])
+    m.add("    4 [+1]  UInt  opt")
+    m.meta["depth"] = d
+    m.meta["opaque"] = []
+    return m, lib
+
+
+def gen_valid(r, maxdepth=6, n_items=10, signed_literal=True, imports=()):
+    """A well-typed module.  imports: [(alias, Lib)].  Returns Module."""
     m = Module()
     env0 = Env()
     enums = {"Ea": ["AA", "BB", "CC"], "Eb": ["XX", "YY"]}
-    env0.enums = enums
+    env0.enums = dict(enums)
+    env0.alias = {"Ea": "Ea", "Eb": "Eb"}
+    for alias, lib in imports:
+        m.add('import "%s" as %s' % (lib.fname, alias))
+        for c, vs in lib.enums.items():
+            env0.enums[c] = vs
+            env0.alias[c] = alias + "." + lib.local[c]
     gclosed = ExprGen(r, env0, closed=True)
     env_noenum = Env()
     gvalue = ExprGen(r, env_noenum, closed=True)
@@ -372,8 +496,7 @@ def gen_valid(r, maxdepth=6, n_items=10, steer_array_bool=True, const_bounds=Fal
     m.add("  [fixed_size_in_bits: {0}]", [("attr-int", gclosed.int_with_value(16, r.randint(0, d)), "int", env0)])
     m.add("  0 [+2]  UInt  z")
     # parameterised struct
-    penv = Env()
-    penv.enums = enums
+    penv = env0.copy()
     penv.add("pa", "int", field=False)
     penv.add("pe", ("enum", "Ea"), field=False)
     m.add("struct Par(pa: UInt:8, pe: Ea):")
@@ -384,13 +507,18 @@ def gen_valid(r, maxdepth=6, n_items=10, steer_array_bool=True, const_bounds=Fal
     m.add("  if {0}:", [("if", g.gen("bool", d), "bool", penv)])
     m.add("    1 [+1]  UInt  rr")
     # main struct
-    env = Env()
-    env.enums = enums
+    env = env0.copy()
     has_param = r.random() < 0.6
-    m.add("struct Main(mp: UInt:8, me: Eb):" if has_param else "struct Main:")
+    hdr = "struct Main(mp: UInt:8, me: Eb"
     if has_param:
         env.add("mp", "int", field=False)
         env.add("me", ("enum", "Eb"), field=False)
+        for j, (alias, lib) in enumerate(imports):
+            if r.random() < 0.7:
+                c = lib.par_enum[1]
+                hdr += ", mo%d: %s" % (j, env0.spell(c))
+                env.add("mo%d" % j, ("enum", c), field=False)
+    m.add(hdr + "):" if has_param else "struct Main:")
     m.add("  0 [+1]  bits:")
     m.add("    0 [+1]  Flag  fa")
     m.add("    1 [+1]  Flag  fb")
@@ -407,22 +535,81 @@ def gen_valid(r, maxdepth=6, n_items=10, steer_array_bool=True, const_bounds=Fal
     env.fields.append(("arr", "opaque"))
     env.fields.append(("sub", "opaque"))
     m.meta["opaque"] = ["arr", "sub"]
-    struct_requires_at = None
     off = 8
+    # what the imported modules contribute: a Holder field (its members, virtual ones included,
+    # are defined in the other file), fields of the imported enums, static references to its constants
+    for j, (alias, lib) in enumerate(imports):
+        hn = "oh%d" % j
+        m.add("  %d [+5]  %s.Holder  %s" % (off, alias, hn))
+        off += 5
+        env.fields.append((hn, "opaque"))
+        m.meta["opaque"].append(hn)
+        for fnm, ty in lib.holder:
+            env.add("%s.%s" % (hn, fnm), ty)
+        for c in sorted(lib.enums):
+            fn_ = "oe%d%s" % (j, lib.local[c][-1].lower())
+            m.add("  %d [+1]  %s  %s" % (off, env0.spell(c), fn_))
+            off += 1
+            env.add(fn_, ("enum", c))
+        for suffix, ty in lib.consts:
+            # static references are closed: usable in constant positions as well
+            env.by_ty.setdefault(ty, []).append("%s.%s" % (alias, suffix))
+    # inline (nested) types: expressions inside `Main.Inl`, its nested `bits`, and an inline enum —
+    # the traversals of all three passes have to descend into subtypes
+    if r.random() < 0.6:
+        ienv = env0.copy()
+        ienv.by_ty, ienv.fields = {}, []
+        ienv.add("ia", "int")
+        gi = ExprGen(r, ienv)
+        di = min(d, 3)
+        m.add("  %d [+3]  struct  inl:" % off)
+        m.add("    0 [+1]  UInt  ia")
+        m.add("    if {0}:", [("if", gi.gen("bool", di), "bool", ienv.copy())])
+        m.add("      1 [+1]  UInt  ib")
+        m.add("    let iv = {0}", [("let", gi.gen("int", di), "int", ienv.copy())])
+        ienv.add("iv", "int")
+        m.add("    2 [+1]  bits  nb:")
+        benv = env0.copy()
+        benv.by_ty, benv.fields = {}, []
+        benv.add("nib", "int")
+        m.add("      0 [+4]  UInt  nib")
+        m.add("      if {0}:", [("if", ExprGen(r, benv).gen("bool", di), "bool", benv)])
+        m.add("        4 [+4]  UInt  nf")
+        m.add("      let nv = {0}", [("let", ExprGen(r, benv).gen("int", di), "int", benv)])
+        off += 3
+        m.add("  %d [+1]  enum  st:" % off)
+        m.add("    OK = {0}", [("enum-value", gvalue.int_with_value(r.randint(0, 50), r.randint(0, 2)), "int", env0)])
+        m.add("    BAD = {0}", [("enum-value", gvalue.int_with_value(r.randint(51, 99), r.randint(0, 2)), "int", env0)])
+        off += 1
+        env.enums = dict(env.enums)
+        env.alias = dict(env.alias)
+        env.enums["Main/St"] = ["OK", "BAD"]
+        env.alias["Main/St"] = "St"
+        env.add("st", ("enum", "Main/St"))
+        for nm in ("inl.ia", "inl.iv", "inl.nb.nib", "inl.nb.nv"):
+            env.add(nm, "int")
+        env.fields.append(("inl", "opaque"))
+        m.meta["opaque"].append("inl")
+        m.meta["nested"] = True
+    m.meta["aliases"] = [alias for alias, _ in imports]
+    m.meta["static_phys"] = ["Main.x"] + ["%s.%s" % (alias, lib.phys) for alias, lib in imports]
     counter = [0]
 
     def fresh(p):
         counter[0] += 1
         return "%s%d" % (p, counter[0])
 
+    kinds = ["let-int", "let-int", "let-bool", "let-enum", "dyn-start", "size", "dyn-size", "array",
+             "if", "requires", "passed", "let-int", "if"]
+    if imports:
+        kinds += ["passed-lib", "let-enum", "let-bool"]
     for _ in range(n_items):
         g = ExprGen(r, env)
-        kind = r.choice(["let-int", "let-int", "let-bool", "let-enum", "dyn-start", "size", "dyn-size", "array",
-                         "if", "requires", "passed", "let-int", "if"])
+        kind = r.choice(kinds)
         if kind.startswith("let-"):
-            ty = {"let-int": "int", "let-bool": "bool", "let-enum": ("enum", r.choice(list(enums)))}[kind]
+            ty = {"let-int": "int", "let-bool": "bool", "let-enum": r.choice(env.enum_types())}[kind]
             nm = fresh("v")
-            m.add("  let %s = {0}" % nm, [("let", ExprGen(r, env, const_bounds=const_bounds).gen(ty, d), ty, env.copy())])
+            m.add("  let %s = {0}" % nm, [("let", ExprGen(r, env).gen(ty, d), ty, env.copy())])
             env.add(nm, ty)
         elif kind == "dyn-start":
             nm = fresh("f")
@@ -441,13 +628,8 @@ def gen_valid(r, maxdepth=6, n_items=10, steer_array_bool=True, const_bounds=Fal
             m.meta["opaque"].append(nm)
         elif kind == "array":
             nm = fresh("a")
-            # array lengths: integer-only sub-expressions unless told otherwise (open finding)
-            for _try in range(50):
-                e = g.gen("int", d)
-                if not steer_array_bool or not has_nonint_sub(e, "int"):
-                    break
-            else:
-                e = ("num", 3)
+            # since e20b103 only the length itself has to be an integer: any integer expression
+            e = g.gen("int", d)
             m.add("  %d [+{0}]  UInt:8[{1}]  %s" % (off, nm),
                   [("field-size", e, "int", env.copy()), ("array-length", e, "int", env.copy())])
             env.fields.append((nm, "opaque"))
@@ -463,8 +645,9 @@ def gen_valid(r, maxdepth=6, n_items=10, steer_array_bool=True, const_bounds=Fal
             m.add("  %d [+1]  UInt  %s" % (off, nm))
             off += 1
             env.add(nm, "int")
-            renv = Env()
-            renv.enums = enums
+            renv = env0.copy()
+            renv.by_ty = {}
+            renv.fields = []
             renv.add("this", "int", field=False)
             m.add("    [requires: {0}]", [("requires", ExprGen(r, renv).gen("bool", d), "bool", renv)])
         elif kind == "passed":
@@ -475,12 +658,23 @@ def gen_valid(r, maxdepth=6, n_items=10, steer_array_bool=True, const_bounds=Fal
             off += 2
             env.fields.append((nm, "opaque"))
             env.add(nm + ".q", "int")
+        elif kind == "passed-lib":
+            alias, lib = r.choice(list(imports))
+            nm = fresh("s")
+            m.add("  %d [+2]  %s.Par({0}, {1})  %s" % (off, alias, nm),
+                  [("passed-int", g.gen("int", d), "int", env.copy()),
+                   ("passed-enum", g.gen(lib.par_enum, d), lib.par_enum, env.copy())])
+            off += 2
+            env.fields.append((nm, "opaque"))
+            env.add(nm + ".q", "int")
+            env.add(nm + ".k", "int")      # a virtual field defined in the other file
     # a struct-level [requires] must come right after the header: insert it there
     if r.random() < 0.6:
         hdr = next(i for i, (t, _) in enumerate(m.lines) if t.startswith("struct Main"))
         # only names defined by the fixed prologue are safe to mention before the item loop
-        renv = Env()
-        renv.enums = enums
+        renv = env0.copy()
+        renv.by_ty = {}
+        renv.fields = []
         for nm, ty in [("fa", "bool"), ("fb", "bool"), ("sm", "int"), ("x", "int"), ("y", "int"),
                        ("ea", ("enum", "Ea")), ("eb", ("enum", "Eb"))]:
             renv.add(nm, ty)
@@ -497,6 +691,29 @@ def gen_valid(r, maxdepth=6, n_items=10, steer_array_bool=True, const_bounds=Fal
     m.add("  0 [+Cst.c1 * 0 + 1]  UInt  w")
     m.meta["depth"] = d
     return m
+
+
+def gen_set(r, maxdepth=6, n_items=10, signed_literal=True, nfiles=None):
+    """A set of modules {file name: Module}; `m.emb` is the main one.  With 2 or 3 files the
+    imported modules define enums / structs with the *same names* as the importer, and with 3
+    files one library is reached both directly and through the other library (two aliases)."""
+    if nfiles is None:
+        nfiles = r.choice([1, 1, 2, 2, 2, 3, 3])
+    mods = {}
+    imports = []
+    if nfiles >= 3:
+        third, l3 = gen_lib(r, "third.emb")
+        mods["third.emb"] = third
+        other, l2 = gen_lib(r, "other.emb", sub=("t3", l3))
+        mods["other.emb"] = other
+        imports = [("oth", l2), ("thd", l3)]
+        r.shuffle(imports)
+    elif nfiles == 2:
+        other, l2 = gen_lib(r, "other.emb")
+        mods["other.emb"] = other
+        imports = [("oth", l2)]
+    mods["m.emb"] = gen_valid(r, maxdepth=maxdepth, n_items=n_items, signed_literal=signed_literal, imports=imports)
+    return mods
 
 
 # ---------------------------------------------------------------------------------------
@@ -541,9 +758,14 @@ def wrong_for(r, ty, env, opaque_names, allow=("int", "bool", "enum", "opaque"))
     if ty != "bool" and "bool" in allow:
         cands.append(lambda: g.gen("bool", r.randint(0, 2)))
     if "enum" in allow:
-        for en in env.enums:
-            if ty != ("enum", en):
-                cands.append(lambda en=en: g.gen(("enum", en), r.randint(0, 1)))
+        for t in env.enum_types():
+            if ty != t:
+                cands.append(lambda t=t: g.gen(t, r.randint(0, 1)))
+        if isinstance(ty, tuple):
+            # the namesake in another module is the likeliest confusion: weight it
+            same = [t for t in env.enum_types() if t != ty and base(t[1]) == base(ty[1])]
+            for t in same:
+                cands += [lambda t=t: g.gen(t, r.randint(0, 1))] * 3
     if "opaque" in allow and opaque_names:
         cands.append(lambda: ("ref", r.choice(opaque_names), "opaque"))
     return r.choice(cands)()
@@ -552,7 +774,7 @@ def wrong_for(r, ty, env, opaque_names, allow=("int", "bool", "enum", "opaque"))
 def mutate(r, m):
     """Apply one catalogue entry at a random site of Module m (in place).
     Returns dict(rule, line (1-based), detail) or None if the entry found no site."""
-    entry = r.choice(CATALOGUE)
+    entry = r.choice(CATALOGUE if m.file == "m.emb" else LIB_CATALOGUE)
     return entry(r, m)
 
 
@@ -624,11 +846,12 @@ def mut_comparison(r, m):
         if variant == "int-bool":
             a, b = g.gen("int", 1), g.gen("bool", 1)
         elif variant == "int-enum":
-            a, b = g.gen("int", 1), g.gen(("enum", "Ea"), 1)
+            a, b = g.gen("int", 1), g.gen(r.choice(env.enum_types()), 1)
         elif variant == "bool-enum":
-            a, b = g.gen("bool", 1), g.gen(("enum", "Eb"), 1)
+            a, b = g.gen("bool", 1), g.gen(r.choice(env.enum_types()), 1)
         elif variant == "two-enums":
-            a, b = g.gen(("enum", "Ea"), 1), g.gen(("enum", "Eb"), 1)
+            t1, t2 = env.two_enums(r)
+            a, b = g.gen(t1, 1), g.gen(t2, 1)
         else:
             if not opq:
                 return None
@@ -637,15 +860,19 @@ def mut_comparison(r, m):
             a, b = b, a
         new = ("bin", n[1], a, b)
     else:
-        variant = r.choice(["bool", "bool-both", "int-enum", "opaque", "enum-enum"])
+        variant = r.choice(["bool", "bool-both", "int-enum", "opaque", "enum-enum", "two-enums"])
         if variant == "enum-enum":
-            a, b = g.gen(("enum", "Ea"), 1), g.gen(("enum", "Ea"), 1)
+            t1 = r.choice(env.enum_types())
+            a, b = g.gen(t1, 1), g.gen(t1, 1)
+        elif variant == "two-enums":
+            t1, t2 = env.two_enums(r)
+            a, b = g.gen(t1, 1), g.gen(t2, 1)
         elif variant == "bool":
             a, b = g.gen("bool", 1), g.gen("int", 1)
         elif variant == "bool-both":
             a, b = g.gen("bool", 1), g.gen("bool", 1)
         elif variant == "int-enum":
-            a, b = g.gen("int", 1), g.gen(("enum", "Ea"), 1)
+            a, b = g.gen("int", 1), g.gen(r.choice(env.enum_types()), 1)
         else:
             if not opq:
                 return None
@@ -673,19 +900,20 @@ def mut_choice(r, m):
     if variant == "cond-int":
         new = ("choice", g.gen("int", 1), n[2], n[3])
     elif variant == "cond-enum":
-        new = ("choice", g.gen(("enum", "Ea"), 1), n[2], n[3])
+        new = ("choice", g.gen(r.choice(env.enum_types()), 1), n[2], n[3])
     elif variant == "branches-int-bool":
         a, b = g.gen("int", 1), g.gen("bool", 1)
         if r.random() < 0.5:
             a, b = b, a
         new = ("choice", n[1], a, b)
     elif variant == "branches-two-enums":
-        a, b = g.gen(("enum", "Ea"), 1), g.gen(("enum", "Eb"), 1)
+        t1, t2 = env.two_enums(r)
+        a, b = g.gen(t1, 1), g.gen(t2, 1)
         if r.random() < 0.5:
             a, b = b, a
         new = ("choice", n[1], a, b)
     elif variant == "branches-int-enum":
-        a, b = g.gen("int", 1), g.gen(("enum", "Eb"), 1)
+        a, b = g.gen("int", 1), g.gen(r.choice(env.enum_types()), 1)
         if r.random() < 0.5:
             a, b = b, a
         new = ("choice", n[1], a, b)
@@ -696,8 +924,13 @@ def mut_choice(r, m):
     return _apply(m, s, replace(s["expr"], p, new), "choice:" + variant)
 
 
+def _nameable_enum(r, env):
+    return r.choice([t for t in env.enum_types() if t[1] in env.enums])
+
+
 def mut_function(r, m):
-    """wrong arity / argument kind of $max, $present, $upper_bound, $lower_bound"""
+    """wrong arity / argument kind of $max, $present, $upper_bound, $lower_bound; for the
+    variadic `$max` the offending argument sits at any index of a call of any arity up to 24"""
     s = _pick_sites(r, m, lambda s: s["pos"] in ("let", "if", "requires", "field-start", "passed-int", "field-size"))
     if s is None:
         return None
@@ -708,8 +941,10 @@ def mut_function(r, m):
             or (n[0] == "bin" and n[1] in ARITH) or (n[0] == "fn" and n[1] != "$present")]
     bools = [(p, n) for p, n in subterms(s["expr"]) if n[0] == "bool" or (n[0] == "ref" and n[2] == "bool")
              or (n[0] == "bin" and n[1] in ORD + EQ + LOGIC) or (n[0] == "fn" and n[1] == "$present")]
-    variant = r.choice(["max-0", "max-bool", "max-enum", "present-0", "present-2", "present-expr", "present-const",
-                        "upper-0", "upper-2", "upper-bool", "lower-0", "lower-2", "lower-enum"])
+    variant = r.choice(["max-0", "max-bool", "max-enum", "max-opaque", "max-bool", "max-enum",
+                        "present-0", "present-n", "present-expr", "present-const",
+                        "upper-0", "upper-n", "upper-bool", "lower-0", "lower-n", "lower-enum"])
+    detail = ""
     if variant.startswith("present"):
         if not bools:
             return None
@@ -717,12 +952,16 @@ def mut_function(r, m):
         fs = [t for t, _ in env.fields] or ["x"]
         if variant == "present-0":
             new = ("fn", "$present", [])
-        elif variant == "present-2":
-            new = ("fn", "$present", [("ref", r.choice(fs), "any"), ("ref", r.choice(fs), "any")])
+        elif variant == "present-n":
+            k = r.choice([2, 2, 3, 5, 9, 12])
+            new = ("fn", "$present", [("ref", r.choice(fs), "any") for _ in range(k)])
+            detail = "arity %d" % k
         elif variant == "present-expr":
             new = ("fn", "$present", [("bin", "+", g.gen("int", 1), ("num", 1))])
         else:
-            new = ("fn", "$present", [r.choice([("num", 1), ("bool", True), ("enum", "Ea", "AA")])])
+            c = _nameable_enum(r, env)
+            new = ("fn", "$present", [r.choice([("num", 1), ("bool", True),
+                                                ("enum", env.spell(c[1]), env.enums[c[1]][0])])])
     else:
         if not ints:
             return None
@@ -731,30 +970,51 @@ def mut_function(r, m):
         what = variant.split("-")[1]
         if what == "0":
             new = ("fn", fn, [])
-        elif what == "2":
-            new = ("fn", fn, [g.gen("int", 1), g.gen("int", 1)])
-        elif what == "bool":
-            args = [g.gen("bool", 1)]
-            if fn == "$max" and r.random() < 0.5:
-                args = [g.gen("int", 1)] + args
-            new = ("fn", fn, args)
+        elif what == "n":
+            k = r.choice([2, 2, 3, 5, 9, 12])
+            new = ("fn", fn, [g.gen("int", 1 if k < 4 else 0) for _ in range(k)])
+            detail = "arity %d" % k
         else:
-            new = ("fn", fn, [g.gen(("enum", "Ea"), 1)])
-    return _apply(m, s, replace(s["expr"], p, new), "function:" + variant)
+            if what == "bool":
+                bad = g.gen("bool", 1)
+            elif what == "enum":
+                bad = g.gen(r.choice(env.enum_types()), 1)
+            else:
+                if not opq:
+                    return None
+                bad = ("ref", r.choice(opq), "opaque")
+            if fn == "$max":
+                k = r.choice(MAX_ARITIES)
+                at = r.randrange(k)
+                args = [g.gen("int", 1 if k < 4 else 0) for _ in range(k)]
+                args[at] = bad
+                detail = "arity %d, argument %d" % (k, at)
+            else:
+                args = [bad]
+            new = ("fn", fn, args)
+    info = _apply(m, s, replace(s["expr"], p, new), "function:" + variant)
+    info["detail"] = detail
+    return info
 
 
 def mut_position(r, m):
     """an expression of the wrong kind for its position"""
     s = _pick_sites(r, m, lambda s: s["pos"] in ("field-start", "field-size", "array-length", "if", "requires",
-                                                 "attr-int", "enum-value"))
+                                                 "attr-int", "enum-value", "passed-int", "passed-enum"))
     if s is None:
         return None
     env, opq = s["env"], _visible_opaque(m, s)
     if s["pos"] in ("attr-int", "enum-value"):
         g = ExprGen(r, env, closed=True)
-        bad = r.choice([g.gen("bool", 1), g.gen(("enum", "Ea"), 0)])
-        if s["pos"] == "enum-value" and bad[0] == "enum":
-            bad = ("enum", "Eb", "XX") if "Eb" in env.enums else bad
+        # not the enum being defined (a value mentioning its own enum is a dependency cycle)
+        own = None
+        for t, _ in reversed(m.lines[:s["line"]]):
+            if t.startswith("enum "):
+                own = t[5:].rstrip(":")
+                break
+        cs = [t for t in env.enum_types() if t[1] in env.enums and env.spell(t[1]) != own]
+        c = r.choice(cs)
+        bad = r.choice([g.gen("bool", 1), ("enum", env.spell(c[1]), r.choice(env.enums[c[1]]))])
     else:
         bad = wrong_for(r, s["ty"], env, opq)
     rule = "position:" + s["pos"]
@@ -768,7 +1028,15 @@ def mut_position(r, m):
 def mut_parameter(r, m):
     """parameter misuse: array / boolean / struct parameter type; wrong number or kind of passed parameters"""
     variant = r.choice(["decl-array", "decl-flag", "decl-struct", "pass-missing", "pass-extra", "pass-int-for-enum",
-                        "pass-enum-for-int", "pass-bool", "pass-other-enum", "pass-none"])
+                        "pass-enum-for-int", "pass-bool", "pass-other-enum", "pass-none", "pass-namesake-enum"])
+    if variant == "pass-namesake-enum":
+        # the enum of the same name from an imported module
+        if not m.meta.get("aliases"):
+            return None
+        idx = next(i for i, (t, _) in enumerate(m.lines) if "Par(1, Ea.AA)" in t)
+        rep = "Par(1, %s.Ea.AA)" % r.choice(m.meta["aliases"])
+        m.lines[idx][0] = m.lines[idx][0].replace("Par(1, Ea.AA)", rep)
+        return {"rule": "parameter:" + variant, "line": idx + 1, "pos": "passed", "detail": rep, "expr": rep}
     if variant.startswith("decl"):
         idx = next(i for i, (t, _) in enumerate(m.lines) if t.startswith("struct Par("))
         new = {"decl-array": "struct Par(pa: UInt:8, pe: Ea, px: UInt:8[2]):",
@@ -817,6 +1085,14 @@ ATTR_MUTS = [
     ("external Ext:", "  ", '[static_requirements: "x"]', "attr:static_requirements-string"),
     ("external Ext:", "  ", '[addressable_unit_size: true]', "attr:addressable_unit_size-bool"),
     ("external Ext:", "  ", '[addressable_unit_size: "8"]', "attr:addressable_unit_size-string"),
+    # constancy: values of the right type that mention a field or a builtin
+    ("external Ext:", "  ", '[addressable_unit_size: $static_size_in_bits]', "attr:addressable_unit_size-nonconstant"),
+    ("external Ext:", "  ", '[addressable_unit_size: $static_size_in_bits + 8]', "attr:addressable_unit_size-nonconstant"),
+    ("external Ext:", "  ", '[is_integer: $is_statically_sized]', "attr:is_integer-nonconstant"),
+    ("external Ext:", "  ", '[is_integer: $static_size_in_bits == 8]', "attr:is_integer-nonconstant"),
+    ("struct Fx:", "  ", '[fixed_size_in_bits: z + 14]', "attr:fixed_size-nonconstant"),
+    ("struct Fx:", "  ", '[fixed_size_in_bits: $max(16, z)]', "attr:fixed_size-nonconstant"),
+    ("struct Fx:", "  ", '[fixed_size_in_bits: 8 * (z - z + 2)]', "attr:fixed_size-nonconstant"),
 ]
 
 
@@ -863,7 +1139,7 @@ def mut_static_ref(r, m):
     if not ints:
         return None
     p, _ = r.choice(ints)
-    new = ("ref", "Main.x", "int")
+    new = ("ref", r.choice(m.meta.get("static_phys", ["Main.x"])), "int")
     return _apply(m, s, replace(s["expr"], p, new), "static-ref:physical")
 
 
@@ -879,5 +1155,244 @@ def mut_next(r, m):
     return _apply(m, s, replace(s["expr"], p, ("raw", "$next")), "builtin:next-in-" + s["pos"])
 
 
+LIB_CATALOGUE = [mut_operand_kind, mut_comparison, mut_comparison, mut_choice, mut_function, mut_position]
 CATALOGUE = [mut_next, mut_operand_kind, mut_operand_kind, mut_comparison, mut_comparison, mut_choice, mut_function,
              mut_function, mut_position, mut_position, mut_parameter, mut_attribute, mut_attribute, mut_static_ref]
+
+
+def max_arity(e):
+    k = e[0]
+    if k == "bin":
+        return max(max_arity(e[2]), max_arity(e[3]))
+    if k == "neg":
+        return max_arity(e[1])
+    if k == "choice":
+        return max(max_arity(x) for x in e[1:])
+    if k == "fn":
+        return max([len(e[2])] + [max_arity(a) for a in e[2]])
+    return 0
+
+
+# ---------------------------------------------------------------------------------------
+# boundary modules: every n-ary construct at sizes well beyond the usual, the offending item
+# at every index; same-named enums of different modules in every operator.
+
+class _Lines:
+    def __init__(self, file="m.emb"):
+        self.file, self.lines, self.bad = file, [], []
+
+    def ok(self, text):
+        self.lines.append(text)
+
+    def err(self, text):
+        self.lines.append(text)
+        self.bad.append(len(self.lines))
+
+    def text(self):
+        return "".join(l + "\n" for l in self.lines)
+
+
+def _b_functions(r):
+    """pass 1: `$max` of arity 1..20, 24, 32 with a non-integer at every index; wrong arities of
+    the unary functions; long operator chains and deep `?:` nests."""
+    L = _Lines()
+    L.ok('[$default byte_order: "LittleEndian"]')
+    L.ok("enum Ea:")
+    L.ok("  AA = 1")
+    L.ok("struct Foo:")
+    L.ok("  0 [+1]  UInt  x")
+    L.ok("  1 [+1]  bits:")
+    L.ok("    0 [+1]  Flag  fb")
+    L.ok("  2 [+1]  Ea  ea")
+    L.ok("  3 [+2]  UInt:8[2]  arr")
+    bads = ["fb", "ea", "Ea.AA", "true", "arr", "x == 1"]
+    k = 0
+    arities = list(range(1, 21)) + [24, 32]
+    for n in arities:
+        L.ok("  let g%d = $max(%s)" % (n, ", ".join(r.choice(["x", "1", "x + 1"]) for _ in range(n))))
+        idxs = range(n) if n <= 20 else sorted(set([0, 8, n - 1] + [r.randrange(n) for _ in range(4)]))
+        for i in idxs:
+            args = ["x"] * n
+            args[i] = bads[k % len(bads)]
+            k += 1
+            L.err("  let m%d_%d = $max(%s)" % (n, i, ", ".join(args)))
+    L.err("  let m0 = $max()")
+    L.err("  let mm2 = $max(fb, x, ea)")
+    L.err("  let mm9 = $max(x, fb, x, x, x, x, x, x, ea, x, arr)")
+    L.err("  let mm20 = $max(%s)" % ", ".join(["fb"] * 20))
+    for fn in ("$present", "$upper_bound", "$lower_bound"):
+        L.ok("  let u1%s = %s(x)" % (fn[1:3], fn))
+        for n in [0, 2, 3, 5, 8, 9, 12, 17]:
+            L.err("  let u%d%s = %s(%s)" % (n, fn[1:3], fn, ", ".join(["x"] * n)))
+    # chains: the parser nests them to the left; the offending operand at every position
+    for n in (2, 5, 9, 16, 30):
+        L.ok("  let ca%d = %s" % (n, " + ".join(["x"] * n)))
+        L.ok("  let cb%d = %s" % (n, " && ".join(["fb"] * n)))
+        for i in sorted(set([0, 1, n // 2, n - 1])):
+            ops = ["x"] * n
+            ops[i] = bads[k % 3]
+            k += 1
+            L.err("  let ea%d_%d = %s" % (n, i, " + ".join(ops)))
+            ops = ["fb"] * n
+            ops[i] = ["x", "ea", "3"][k % 3]
+            L.err("  let eb%d_%d = %s" % (n, i, " || ".join(ops)))
+    for n in (1, 4, 12, 25):
+        def nest(d, leaf):
+            return leaf if d == 0 else "fb ? %d : (%s)" % (d, nest(d - 1, leaf))
+        L.ok("  let q%d = %s" % (n, nest(n, "0")))
+        L.err("  let r%d = %s" % (n, nest(n, bads[k % 3])))
+        k += 1
+    return {"name": "functions-arity-sweep", "files": {"m.emb": L.text()}, "lines": {"m.emb": L.bad},
+            "rule": "boundary:function-arity"}
+
+
+def _b_positions(r):
+    """pass 2: parameter lists of 1..20 parameters with the wrong argument at every index and
+    every wrong length; enums of many values with a non-numeric one at several indexes; array
+    dimensions."""
+    L = _Lines()
+    L.ok('[$default byte_order: "LittleEndian"]')
+    L.ok("enum Ea:")
+    L.ok("  AA = 1")
+    L.ok("enum Eb:")
+    L.ok("  XX = 1")
+    L.ok("enum Big:")
+    bad_at = set([0, 7, 8, 9, 23, 39])
+    for i in range(40):
+        if i in bad_at:
+            L.err("  VV%d = %s" % (i, ["true", "1 == 1", "false || true"][i % 3]))
+        else:
+            L.ok("  VV%d = %d" % (i, i))
+    sizes = [1, 2, 5, 9, 12, 20]
+    for n in sizes:
+        ps = ", ".join("p%d: %s" % (i, "UInt:8" if i % 2 == 0 else "Ea") for i in range(n))
+        L.ok("struct Pq%d(%s):" % (n, ps))
+        L.ok("  0 [+1]  UInt  q")
+    L.ok("struct Foo:")
+    L.ok("  0 [+1]  UInt  x")
+    L.ok("  1 [+1]  bits:")
+    L.ok("    0 [+1]  Flag  fb")
+    L.ok("  2 [+1]  Ea  ea")
+    L.ok("  3 [+1]  Eb  eb")
+    off = 4
+    k = 0
+    for n in sizes:
+        good = ["x" if i % 2 == 0 else "ea" for i in range(n)]
+        L.ok("  %d [+1]  Pq%d(%s)  g%d" % (off, n, ", ".join(good), n))
+        off += 1
+        for i in range(n):
+            a = list(good)
+            a[i] = (["ea", "fb", "Eb.XX"] if i % 2 == 0 else ["x", "fb", "eb", "Eb.XX"])[k % 3]
+            k += 1
+            L.err("  %d [+1]  Pq%d(%s)  b%d_%d" % (off, n, ", ".join(a), n, i))
+            off += 1
+        if n >= 2:
+            # several offenders in one use: each is reported (the model has the exact set)
+            for tag, idxs in (("e", [0, n - 1]), ("a", list(range(n)))):
+                a = list(good)
+                for i in idxs:
+                    a[i] = "fb"
+                L.err("  %d [+1]  Pq%d(%s)  d%s%d" % (off, n, ", ".join(a), tag, n))
+                off += 1
+        for m_ in sorted(set([0, n - 1, n + 1, n + 7]) - {n}):
+            a = (good * 3)[:m_]
+            L.err("  %d [+1]  Pq%d%s  w%d_%d" % (off, n, "(%s)" % ", ".join(a) if a else "", n, m_))
+            off += 1
+    # array dimensions: every dimension's length must be an integer
+    for dims in (1, 2, 4):
+        L.ok("  %d [+1]  UInt:8%s  ag%d" % (off, "".join("[x - x + 1]" for _ in range(dims)), dims))
+        off += 1
+        for i in range(dims):
+            ds = ["[1]"] * dims
+            ds[i] = "[%s]" % ["fb", "ea", "x == 1"][k % 3]
+            k += 1
+            L.err("  %d [+1]  UInt:8%s  ab%d_%d" % (off, "".join(ds), dims, i))
+            off += 1
+    return {"name": "positions-arity-sweep", "files": {"m.emb": L.text()}, "lines": {"m.emb": L.bad},
+            "rule": "boundary:position-arity"}
+
+
+_THIRD = '''[$default byte_order: "LittleEndian"]
+enum Ea:
+  AA = 1
+  TT = 3
+struct Cst:
+  let e0 = Ea.TT
+'''
+_OTHER = '''import "third.emb" as t3
+[$default byte_order: "LittleEndian"]
+enum Ea:
+  AA = 0
+  ZZ = 5
+struct Par(pa: UInt:8, pe: Ea):
+  0 [+1]  UInt  q
+struct Cst:
+  let e0 = Ea.ZZ
+struct Holder:
+  0 [+1]  Ea  kind
+  1 [+1]  t3.Ea  tk
+  let de = kind
+  let dt = tk
+'''
+
+
+def _b_namesakes(r, positions):
+    """three modules each defining `enum Ea`; the main one reaches third.emb both directly and
+    through other.emb.  Mixing two *different* `Ea`s is an error in every operator, however the
+    operands are spelled; the *same* `Ea` reached by two paths is fine."""
+    L = _Lines()
+    L.ok('import "other.emb" as oth')
+    L.ok('import "third.emb" as thd')
+    L.ok('[$default byte_order: "LittleEndian"]')
+    L.ok("enum Ea:")
+    L.ok("  AA = 0")
+    L.ok("  BB = 1")
+    L.ok("struct Par(pa: UInt:8, pe: Ea):")
+    L.ok("  0 [+1]  UInt  q")
+    L.ok("struct TPar(pa: UInt:8, pe: thd.Ea):")
+    L.ok("  0 [+1]  UInt  q")
+    L.ok("struct Main(mm: Ea, mo: oth.Ea, mt: thd.Ea):")
+    L.ok("  0 [+1]  Ea  ea")
+    L.ok("  1 [+1]  oth.Ea  oea")
+    L.ok("  2 [+1]  thd.Ea  tea")
+    L.ok("  3 [+2]  oth.Holder  oh")
+    L.ok("  5 [+1]  bits:")
+    L.ok("    0 [+1]  Flag  fb")
+    forms = {"m": ["ea", "Ea.AA", "mm", "(fb ? ea : Ea.BB)"],
+             "o": ["oea", "oth.Ea.ZZ", "mo", "oh.kind", "oh.de", "oth.Cst.e0"],
+             "t": ["tea", "thd.Ea.TT", "mt", "oh.tk", "oh.dt", "thd.Cst.e0"]}
+    n = 0
+    if not positions:
+        for a in "mot":
+            for b in "mot":
+                for fa in forms[a]:
+                    for fb_ in forms[b]:
+                        # thin out the full matrix deterministically from the seed, keep every (a, b, op) pair
+                        op = ["==", "!=", "<", "<=", ">", ">=", "?:"][n % 7]
+                        n += 1
+                        if r.random() < 0.55 and not (fa == forms[a][0] and fb_ == forms[b][1]):
+                            continue
+                        if op == "?:":
+                            text = "  let v%d = fb ? %s : %s" % (n, fa, fb_)
+                        else:
+                            text = "  let v%d = %s %s %s" % (n, fa, op, fb_)
+                        if a != b:
+                            L.err(text)
+                        elif op in ("==", "!=", "?:"):
+                            L.ok(text)      # ordering of one enum is F11's business: not generated
+        rule = "boundary:namesake-enums-in-operators"
+    else:
+        off = 6
+        for tname, want in (("Par", "m"), ("oth.Par", "o"), ("TPar", "t")):
+            for b in "mot":
+                for fb_ in forms[b]:
+                    text = "  %d [+1]  %s(1, %s)  s%d" % (off, tname, fb_, off)
+                    off += 1
+                    (L.ok if b == want else L.err)(text)
+        rule = "boundary:namesake-enums-as-arguments"
+    return {"name": rule.split(":")[1], "files": {"m.emb": L.text(), "other.emb": _OTHER, "third.emb": _THIRD},
+            "lines": {"m.emb": L.bad}, "rule": rule}
+
+
+def boundary_modules(r):
+    return [_b_functions(r), _b_positions(r), _b_namesakes(r, False), _b_namesakes(r, True)]
